@@ -45,7 +45,10 @@ func SDerivO(r *Regex, char *rune, dr *Regex) Goal {
 										EqualO(dr, Or(ca, db)),
 									)
 								}),
-								EqualO(dr, ca),
+								ConjO(
+									NullO(a, EmptySet()),
+									EqualO(dr, ca),
+								),
 							),
 						)
 					})
